@@ -1090,7 +1090,7 @@ CMR_ERROR CMRtwosumCompose(CMR* cmr, CMR_CHRMAT* first, CMR_CHRMAT* second, size
     /* rank 1 in bottom-right matrix. */
     markerRowNumNonzeros = first->rowSlice[firstRowMarker+1] - first->rowSlice[firstRowMarker];
 
-    CMR_CALL( CMRallocStackArray(cmr, &markerColumn, second->numColumns) );
+    CMR_CALL( CMRallocStackArray(cmr, &markerColumn, second->numRows) );
     for (size_t row = 0; row < second->numRows; ++row)
     {
       size_t entry;
@@ -1113,7 +1113,7 @@ CMR_ERROR CMRtwosumCompose(CMR* cmr, CMR_CHRMAT* first, CMR_CHRMAT* second, size
   {
     /* rank 1 in top right */
 
-    CMR_CALL( CMRallocStackArray(cmr, &markerColumn, first->numColumns) );
+    CMR_CALL( CMRallocStackArray(cmr, &markerColumn, first->numRows) );
     for (size_t row = 0; row < first->numRows; ++row)
     {
       size_t entry;
